@@ -11,7 +11,9 @@
  *     harness/C19/verify.c.
  *  Contracts PROVED by a unit of these properties and re-used as call-site abstraction:
  *     secp256k1_generator_parse        (C07.generator_parse)
- *     secp256k1_generator_serialize    (frame; C19.gens_serialize uses it, C08 owns the codec)
+ *     secp256k1_generator_serialize    (C19.generator_serialize: frame, returns 1; C08 owns the codec)
+ *     secp256k1_generator_save / _load (C19.generator_save / C19.generator_load: frames)
+ *  libc: memset with symbolic length replaced by a contract (BP_MEMSET), like memcpy in DESIGN 2.4
  */
 #ifndef VERIF_ASSUMED_BPPP_H
 #define VERIF_ASSUMED_BPPP_H
@@ -95,6 +97,22 @@ int secp256k1_generator_serialize(const secp256k1_context *ctx, unsigned char *o
 __CPROVER_requires(ctx != NULL && __CPROVER_w_ok(output, 33) && __CPROVER_r_ok(gen, sizeof(*gen)))
 __CPROVER_assigns(__CPROVER_object_upto(output, 33))
 __CPROVER_ensures(__CPROVER_return_value == 1)
+;
+#endif
+
+/* ---- generator <-> group element conversion (field normalisation / byte conversion inside).  Frame
+ * contracts PROVED on the real bodies by C19.generator_save / C19.generator_load; used so that the list
+ * functions, which apply them to element i of a heap array for symbolic i, stay cheap. ---- */
+#ifdef BP_GENERATOR_SAVE
+static void secp256k1_generator_save(secp256k1_generator *gen, secp256k1_ge *ge)
+__CPROVER_requires(__CPROVER_w_ok(gen, sizeof(*gen)) && __CPROVER_rw_ok(ge, sizeof(*ge)))
+__CPROVER_assigns(*gen, ge->x, ge->y)
+;
+#endif
+#ifdef BP_GENERATOR_LOAD
+static void secp256k1_generator_load(secp256k1_ge *ge, const secp256k1_generator *gen)
+__CPROVER_requires(__CPROVER_w_ok(ge, sizeof(*ge)) && __CPROVER_r_ok(gen, sizeof(*gen)))
+__CPROVER_assigns(*ge)     /* frame only: a postcondition read back from element i of a symbolic-size heap array costs > 11 GB */
 ;
 #endif
 
